@@ -23,7 +23,7 @@ MUST_REACH = ["shape:tall", "shape:wide", "shape:square", "rank:deficient", "ran
 
 C = 1e3
 
-FULL = ["gauss", "spectrum", "int", "pure_imag", "single_axis", "scaled_small", "scaled_big", "layout", "real_only", "unit_identity",
+FULL = ["graded_columns", "graded_rows", "gauss", "spectrum", "int", "pure_imag", "single_axis", "scaled_small", "scaled_big", "layout", "real_only", "unit_identity",
         "upper_tri", "diag"]
 DEF = ["lowrank", "zero_column", "zero_column_negzero", "zero_column_masked", "dup_column", "dep_column", "zero_matrix", "zero_row", "rank1", "int_lowrank", "leading_deficient"]
 
@@ -151,6 +151,17 @@ def _full(spec, ctx, R):
     elif c == "spectrum":
         kap = float(rng.choice([1e1, 1e4, 1e8]))
         A, _, _ = refq.with_singular_values(rng, m, n, gen.spectrum("geometric", min(m, n), rng, kap))
+    elif c in ("graded_columns", "graded_rows"):
+        # full rank with columns (rows) scaled by widely different powers of ten, down to 1e-30 relative: QR is invariant under
+        # column scaling (A D = Q (R D)), so every clause must hold; integer base in half of the cases
+        A = gen.entries(rng, "int", m, n) if rng.random() < 0.5 else refq.randq(rng, m, n)
+        if embed.rank(A, rtol=1e-9) < min(m, n):
+            A = A + refq.diagq(np.full(min(m, n), 5.0), m, n)
+        ex = rng.choice([0.0, -3.0, -8.0, -18.0, -30.0, 6.0], size=(n if c == "graded_columns" else m))
+        if c == "graded_columns":
+            A = A * (10.0 ** ex)[None, :]
+        else:
+            A = A * (10.0 ** ex)[:, None]
     elif c in ("int", "pure_imag", "single_axis"):
         A = gen.entries(rng, c, m, n)
     elif c == "scaled_small":
